@@ -13,7 +13,7 @@ inductive CliCmd where
 inductive CliOut where
   /-- merge patch of the EDS: resulting annotation map -/
   | patchAnnotations (ann : SMap)
-  /-- status update of the named ERS: a Canary-Failed=True condition is appended -/
+  /-- status update of the named ERS: its Canary-Failed condition is set to True (updated in place, appended when absent — F12 repair; before it the condition was always appended) -/
   | failErs (name : String)
   | refused (why : String)
   deriving DecidableEq, Repr
